@@ -119,9 +119,15 @@ where
             //   "Messages carried by UDP are restricted to 512 bytes (not
             //    counting the IP or UDP headers).  Longer messages are
             //    truncated and the TC bit is set in the header."
-            let max_response_size = ctx
-                .max_response_size_hint()
-                .unwrap_or(MINIMUM_RESPONSE_BYTE_LEN);
+            //
+            // A larger limit only applies if the requestor announced, by
+            // including an OPT record, that it can handle larger messages.
+            let max_response_size = if request.message().opt().is_none() {
+                MINIMUM_RESPONSE_BYTE_LEN
+            } else {
+                ctx.max_response_size_hint()
+                    .unwrap_or(MINIMUM_RESPONSE_BYTE_LEN)
+            };
             let max_response_size = max_response_size as usize;
             let response_len = response.as_slice().len();
 
